@@ -152,6 +152,23 @@ def body_runs(case):
         out.append(Violation("C06/run/more-levels-than-the-maximum", f"L={L}; {detail}"))
     # stopping: the last decision before returning
     crit = rec["crit_calls"]
+    if any(not np.isfinite(c["alpha"]) for c in crit):
+        out.append(Violation("C06/run/bias-test-run-with-a-non-finite-weak-rate",
+                             f"the criterion received alpha={[c['alpha'] for c in crit][:4]} (rates: {case['rates']}); {detail}"))
+    # the variance budget on the simulated samples themselves (ledger): sum_l Var(fine - coarse payoff)/N_l <= (1 - theta)
+    # rmse^2, up to the 1 % shortfall the stopping rule tolerates per level
+    from props.c05 import expected_arrays
+
+    counts = final["ledger_counts"]
+    est_var = 0.0
+    for l in range(L + 1):
+        f_, c_, rows_ = expected_arrays(case, led, counts, l)
+        if len(rows_):
+            est_var += float(np.var(f_ - c_)) / len(rows_)
+    budget = 0.75 * case["rmse"] ** 2
+    if est_var > 1.0101 * budget * (1 + 1e-9) + 1e-300:
+        out.append(Violation("C06/run/variance-budget-missed-on-the-simulated-samples",
+                             f"sum of sample variances / N_l = {est_var!r} > 0.75 rmse^2 = {budget!r} (N_l={Nl.tolist()}); {detail}"))
     # a configured weak rate is the one the bias test is run with (0 included)
     given_alpha = {"given": case["law"]["alpha"], "mixed": case["law"]["alpha"], "zero-alpha": 0.0}.get(case["rates"])
     if given_alpha is not None and any(abs(c["alpha"] - given_alpha) > 1e-12 for c in crit):
@@ -203,7 +220,7 @@ def body_runs(case):
 
 def classify_runs(case):
     return [f"rates={case['rates']}", f"L0={case['initial_level']}", f"Lmax-L0={case['maximum_level'] - case['initial_level']}",
-            f"criteria={case.get('criteria', 'giles')}"], False
+            f"criteria={case.get('criteria', 'giles')}", f"law={case.get('flavour', 'plain')}"], False
 
 
 SUBCHECKS = [
